@@ -217,6 +217,64 @@ def run(tier, seed, only=None):
             for alg in alg_list:
                 jobs.append((i, vname, net, feats, alg))
     fr = netgen.Frame()
+    # monotonicity: a sub-survey (random ~40 % of the observations dropped, possibly no longer determined) versus
+    # the full survey: every point gama determines from the sub-survey must also be determined from the full one
+    mono = []
+    for i in range(n):
+        if only is not None and i != only:
+            continue
+        if i % 2:
+            continue
+        rng, base, feats = gen_base(seed, i)
+        sub = base.clone()
+        r2 = np.random.default_rng([seed, i, 6060])
+        for cl in sub.clusters:
+            if cl.kind in ("obs", "hdiff"):
+                keep = [k for k in range(len(cl.obs)) if r2.uniform() > 0.4]
+                cl.obs = [cl.obs[k] for k in keep]
+                cl.cov = None
+        sub.clusters = [c for c in sub.clusters if c.obs or c.vecs or c.cpoints]
+        # omit approximate coordinates of all unknown points: determination then rests on the observations alone
+        for net_ in (sub, base):
+            pass
+        s2, b2 = sub.clone(), base.clone()
+        for q in list(s2.points.values()) + list(b2.points.values()):
+            if q.xy == "free":
+                q.give_xy = False
+            if q.z == "free":
+                q.give_z = False
+        mono.append((i, s2, b2, feats, algs[i % 4]))
+
+    def work_mono(job):
+        i, sub, full, feats, alg = job
+        gs = xmlout.run_gama_local(netgen.to_gkf(sub, fr), ck.tmp, "m%d-sub" % i, args=["--algorithm", alg], trace=True)
+        gf = xmlout.run_gama_local(netgen.to_gkf(full, fr), ck.tmp, "m%d-full" % i, args=["--algorithm", alg], trace=True)
+        return job, gs, gf
+
+    for (i, sub, full, feats, alg), gs, gf in runner.pmap(work_mono, mono):
+        wit = dict(seed=seed, index=i, variant="monotonicity", alg=alg, kind=full.kind, features=feats)
+        if ck.sanitizer(gs.rr, wit, prefix="gama-local:") or ck.sanitizer(gf.rr, wit, prefix="gama-local:"):
+            continue
+        if gs.rr.timeout or gf.rr.timeout:
+            ck.inconc("timeout")
+            continue
+        det_sub = set(gs.xml["adjusted"]) if gs.xml and gs.xml["kind"] == "adjustment" else set()
+        det_full = set(gf.xml["adjusted"]) if gf.xml and gf.xml["kind"] == "adjustment" else set()
+        lost = sorted(det_sub - det_full)
+        ck.case((full.kind, "monotonicity", "sub-determined:%s" % ("all" if len(det_sub) == len(det_full) else "some" if det_sub else "none"), alg))
+        ck.count("monotonicity pairs")
+        if lost:
+            ck.violation("monotonicity:%s" % full.kind, "points %s are determined from a sub-survey but not from the full "
+                         "survey (outcome full: %s)" % (lost, netlevel.outcome(gf)),
+                         dict(wit, sub_input=netgen.to_gkf(sub, fr), full_input=netgen.to_gkf(full, fr)))
+        elif det_sub and gs.xml["kind"] == "adjustment":
+            # a random sub-survey need not be uniquely determined (e.g. a point held by two distances has a mirror
+            # solution), so a different but consistent answer is not a violation: measured only
+            e, wid = netlevel.coord_errors(sub, gs.xml, fr)
+            w = max((abs(r[3]) for r in netlevel.residuals(gs.xml)), default=0.0)
+            if e > 1e-3:
+                ck.count("sub-survey answers differing from the generating coordinates (%s)" % (
+                    "consistent: alternative solution" if w < 1e-2 else "inconsistent: residuals up to %.0e" % w))
 
     def work(job):
         i, vname, net, feats, alg = job
